@@ -194,7 +194,7 @@ func newVerifier(e *Engine, p *packages.Package, fc *FuncContract) *Verifier {
 		counter: map[string]int{}, trusted: map[string]bool{}, unspec: map[string]bool{}, inlined: map[string]bool{}, assumed: map[string]bool{},
 		windows: map[string]*winInfo{}, lits: map[int]litInfo{}, heapSorts: map[string]string{}, scanned: map[ast.Node]bool{},
 		reslicedOnly: map[*types.Var]bool{}, globalsWritten: map[string]bool{}, pendingHavoc: map[string]bool{}, specUsed: map[string]bool{},
-		lemmasUsed: map[string]bool{}, normDone: map[string]bool{}, pathCap: 2000}
+		lemmasUsed: map[string]bool{}, normDone: map[string]bool{}, pathCap: 2000, refRank: map[string]int{}, allocRank: map[string]int{}}
 	if fc != nil && fc.Mode != "" {
 		v.mode = fc.Mode
 	}
@@ -265,8 +265,9 @@ func (e *Engine) verifyFunc(p *packages.Package, fc *FuncContract, onlyProps map
 	}
 	v.runCase(p, fc, decl, body, lit, onlyProps, all, "cover")
 	for k, c := range all {
-		if c.Kind != "bin" || c.Op != "==" || c.X.Kind != "ident" {
-			unsupported("cases: expected param == constant, got %s", c)
+		isLen := c.Kind == "bin" && c.Op == "==" && c.X.Kind == "call" && c.X.X.Kind == "ident" && c.X.X.Name == "len" && len(c.X.Args) == 1 && c.X.Args[0].Kind == "ident"
+		if !isLen && (c.Kind != "bin" || c.Op != "==" || c.X.Kind != "ident") {
+			unsupported("cases: expected param == constant or len(param) == constant, got %s", c)
 		}
 		v.runCase(p, fc, decl, body, lit, onlyProps, []*CExpr{c}, fmt.Sprintf("case%d", k+1))
 	}
@@ -279,13 +280,19 @@ func (v *Verifier) runCase(p *packages.Package, fc *FuncContract, decl *ast.Func
 	v.params = nil
 	v.results = nil
 	override := map[string]*CExpr{}
+	lenOverride := map[string]*CExpr{}
 	if caseLabel != "" && caseLabel != "cover" {
-		override[caseExprs[0].X.Name] = caseExprs[0].Y
+		if caseExprs[0].X.Kind == "call" {
+			lenOverride[caseExprs[0].X.Args[0].Name] = caseExprs[0].Y
+		} else {
+			override[caseExprs[0].X.Name] = caseExprs[0].Y
+		}
 	}
 	_ = e
 
 	s := &State{vars: map[types.Object]*Term{}, heaps: map[string]*Term{}, ghost: map[string]*Term{}, locks: map[string]bool{}}
 	s.alloc = Const("alloc@0", SInt)
+	v.allocRank[s.alloc.String()] = 0
 	s.assume(Ge(s.alloc, IntLit(1)))
 	v.entry = &State{vars: map[types.Object]*Term{}, heaps: map[string]*Term{}, alloc: s.alloc, ghost: map[string]*Term{}, locks: map[string]bool{}}
 
@@ -298,6 +305,11 @@ func (v *Verifier) runCase(p *packages.Package, fc *FuncContract, decl *ast.Func
 		val := v.symbolic(s, "in_"+o.Name(), o.Type())
 		if ov, ok := override[cname]; ok && cname != "" {
 			val = env.at(s, s).coerceTo(env.at(s, s).tr(ov), o.Type()).T
+		}
+		if ov, ok := lenOverride[cname]; ok && cname != "" {
+			n := env.at(s, s).intOf(env.at(s, s).tr(ov))
+			s.assume(Eq(SLen(val), n))
+			val = MkSlice(SBase(val), SOff(val), n, SCap(val))
 		}
 		v.entry.vars[o] = val
 		if cname != "" {
@@ -386,7 +398,11 @@ func (v *Verifier) runCase(p *packages.Package, fc *FuncContract, decl *ast.Func
 			}
 		}
 	}
-	// package-level facts (global invariants declared for this package)
+	// global axioms (trusted laws of library functions); those that mention
+	// types of packages not loaded for this property are skipped
+	for _, ax := range e.axioms {
+		v.assumeAxiom(s, env, ax)
+	}
 	// requires
 	for _, c := range fc.clauses("requires") {
 		s.assume(env.at(s, s).trBool(c.Expr))
@@ -437,6 +453,7 @@ func (v *Verifier) runCase(p *packages.Package, fc *FuncContract, decl *ast.Func
 		}
 		st := f.St
 		nret++
+		v.obligs = append(v.obligs, &Oblig{Name: fmt.Sprintf("%s#vacuity:path%d%s", v.fnName, nret, v.caseSuffix()), Class: "vacuity-path", Func: v.fnName, PC: append([]*Term(nil), st.pc...), Goal: TFalse, MustSat: true, Desc: "return path is feasible", Mode: v.mode, Props: fc.Props})
 		// deferred calls
 		if len(st.defers) > 0 {
 			// results must be visible to deferred closures through named results only: not modelled
@@ -535,6 +552,8 @@ func (v *Verifier) checkFrame(st *State, env *CEnv, pos token.Pos) {
 					wholeHeaps[e.heapNameOf(arg)] = true
 				}
 				continue
+			case a.Kind == "call" && a.X.Kind == "ident" && v.eng.ghostFields[a.X.Name] != nil:
+				continue
 			case a.Kind == "call" && a.X.Kind == "ident" && a.X.Name == "global":
 				for name := range st.heaps {
 					if strings.HasPrefix(name, "G_") && strings.HasSuffix(name, "_"+a.Args[0].String()) {
@@ -614,7 +633,7 @@ func (v *Verifier) checkFrame(st *State, env *CEnv, pos token.Pos) {
 			v.oblige(st, "frame", name, TFalse, pos, "frame: heap "+name+" was havocked by an unspecified callee")
 			continue
 		}
-		if sameTerm(cur, ent) {
+		if sameTerm(cur, ent) || strings.HasPrefix(name, "GF_") {
 			continue
 		}
 		if strings.HasPrefix(name, "G_") {
@@ -723,4 +742,52 @@ func uniqueSorted(xs []string) []string {
 	}
 	sort.Strings(out)
 	return out
+}
+
+func (v *Verifier) assumeAxiom(s *State, env *CEnv, ax *Axiom) {
+	defer func() {
+		if r := recover(); r != nil {
+			if _, ok := r.(subsetError); ok {
+				return
+			}
+			panic(r)
+		}
+	}()
+	n := len(s.pc)
+	t := env.at(s, s).trBool(ax.Expr)
+	s.pc = s.pc[:n] // drop side facts produced while translating
+	s.assume(t)
+	v.trusted["axiom "+ax.Name+" ("+ax.File[strings.LastIndex(ax.File, "/")+1:]+")"] = true
+}
+
+// evalMapTable: a package-level map initialised by a literal with constant
+// keys and values, assumed never to be modified after package initialisation.
+func (v *Verifier) evalMapTable(s *State, o *types.Var, init ast.Expr, ref *Term) {
+	p := v.eng.globPkg[o]
+	cl, ok := init.(*ast.CompositeLit)
+	mt, isMap := o.Type().Underlying().(*types.Map)
+	if !ok || !isMap || p == nil {
+		return
+	}
+	ks, vs := v.sortOf(mt.Key()), v.sortOf(mt.Elem())
+	has := ConstArray(SArr(ks, SBool), TFalse)
+	vals := ConstArray(SArr(ks, vs), v.zeroOf(mt.Elem()))
+	for _, el := range cl.Elts {
+		kv, ok := el.(*ast.KeyValueExpr)
+		if !ok {
+			return
+		}
+		ktv, vtv := p.TypesInfo.Types[kv.Key], p.TypesInfo.Types[kv.Value]
+		if ktv.Value == nil || vtv.Value == nil {
+			return
+		}
+		k := v.constTerm(ktv.Value, mt.Key())
+		has = Store(has, k, TTrue)
+		vals = Store(vals, k, v.constTerm(vtv.Value, mt.Elem()))
+	}
+	_, _, hh, hv := v.mapHeaps(s, mt)
+	s.assume(Neq(ref, IntLit(0)))
+	s.assume(Eq(Select(hh, ref), has))
+	s.assume(Eq(Select(hv, ref), vals))
+	v.assumed["package-level map "+o.Pkg().Name()+"."+o.Name()+" holds its initial literal (never modified after init)"] = true
 }
